@@ -951,3 +951,21 @@ def null_sweep(ctx: Ctx) -> None:
 
 def _truthy(fs, var: ast.expr) -> bool:
     return any(pol and norm(a) == norm(var) for a, pol in fs)
+
+
+def str_is_serialize(ctx: Ctx) -> None:
+    """str(obj) is exactly what serialize() writes (mutate's backup/output text and the 'second save' clause rely on it)."""
+    from ..pat import match
+    p = ctx.p
+    f = p.func("simfile._private.serializable:Serializable.__str__")
+    sn = f.param_names()[0]
+    loc = locals_of(f)
+    bufs = [n for n, bs in loc.b.items() for b in bs if b.kind == "assign" and isinstance(b.value, ast.Call) and callee_name(ctx, f, b.value).endswith("StringIO") and not b.value.args]
+    ok = len(bufs) == 1
+    if ok:
+        b = bufs[0]
+        sc = [c for c in calls(f) if match("$s.serialize($b)", c) is not None and ast.unparse(c.func.value) == sn and ast.unparse(c.args[0]) == b]
+        rr = [r for r in body_walk(f.node) if isinstance(r, ast.Return)]
+        cfg = ctx.cfg(f)
+        ok = len(sc) == 1 and len(rr) == 1 and ast.unparse(rr[0].value) == f"{b}.getvalue()" and cfg.dominates(cfg_node_of(cfg, f, sc[0]), cfg_node_of(cfg, f, rr[0]))
+    ctx.expect("R-TABLE", f, "str(x) returns exactly the text x.serialize() writes into a fresh buffer", ok, "", "Serializable.__str__ no longer returns the unmodified getvalue() of the buffer passed to serialize()", node=f.node)
